@@ -220,6 +220,9 @@ func (ExtensionSubs) isGSUBLookup()          {}
 func (ReverseChainSingleSubs) isGSUBLookup() {}
 
 func (ms MultipleSubs) Sanitize() error {
+	if ms.Coverage == nil {
+		return errors.New("GSUB: missing MultipleSubs coverage")
+	}
 	if exp, got := ms.Coverage.Len(), len(ms.Sequences); exp != got {
 		return fmt.Errorf("GSUB: invalid MultipleSubs sequences count (%d != %d)", exp, got)
 	}
